@@ -285,4 +285,267 @@ theorem inner_spine : ∀ (n : Nat) (S : Spine), S.length ≤ n → ∀ (rhs : E
     simp only [Res.bind_ok]
     rw [e2, ← foldSpine_append, hsplit]
 
+/-! ### Spines of canonical trees -/
+
+theorem canon_spineOf : (e : Expr) → canon e = true →
+    canon (spineOf e).1 = true ∧ nonInc (spineOf e).2 ∧
+    (∀ x ∈ (spineOf e).2, canon x.2 = true ∧ okQ (prec x.1 + 1) x.2 = true) ∧
+    (∀ q, okQ q e = true → ∀ x ∈ (spineOf e).2, q ≤ prec x.1)
+  | .bin o l r false, h => by
+    simp only [canon, Bool.and_eq_true] at h
+    obtain ⟨⟨⟨hl, hr⟩, hol⟩, hor⟩ := h
+    obtain ⟨i1, i2, i3, i4⟩ := canon_spineOf l hl
+    refine ⟨by simpa [spineOf] using i1, ?_, ?_, ?_⟩
+    · simp only [spineOf, nonInc]
+      refine List.pairwise_append.mpr ⟨i2, by simp, ?_⟩
+      intro a ha b hb
+      simp at hb; subst hb
+      exact i4 (prec o) hol a ha
+    · intro x hx
+      simp only [spineOf, List.mem_append, List.mem_singleton] at hx
+      rcases hx with hx | rfl
+      · exact i3 x hx
+      · exact ⟨hr, hor⟩
+    · intro q hq x hx
+      simp only [okQ, decide_eq_true_eq] at hq
+      simp only [spineOf, List.mem_append, List.mem_singleton] at hx
+      rcases hx with hx | rfl
+      · have := i4 (prec o) hol x hx; omega
+      · exact hq
+  | .bin _ _ _ true, h => by simp [spineOf, nonInc, h]
+  | .lit _, h => by simp [spineOf, nonInc, h]
+  | .id _, h => by simp [spineOf, nonInc, h]
+  | .un _ _, h => by simp [spineOf, nonInc, h]
+  | .call _ _, h => by simp [spineOf, nonInc, h]
+
+theorem size_spineOf : (e : Expr) →
+    size (spineOf e).1 ≤ size e ∧ (∀ x ∈ (spineOf e).2, size x.2 < size e) ∧
+    (isBare e = true → size (spineOf e).1 < size e)
+  | .bin o l r false => by
+    obtain ⟨i1, i2, _⟩ := size_spineOf l
+    refine ⟨by simp [spineOf, size]; omega, ?_, fun _ => by simp [spineOf, size]; omega⟩
+    intro x hx
+    simp only [spineOf, List.mem_append, List.mem_singleton] at hx
+    rcases hx with hx | rfl
+    · have := i2 x hx; simp [size]; omega
+    · simp [size]; omega
+  | .bin _ _ _ true => by simp [spineOf, isBare]
+  | .lit _ => by simp [spineOf, isBare]
+  | .id _ => by simp [spineOf, isBare]
+  | .un _ _ => by simp [spineOf, isBare]
+  | .call _ _ => by simp [spineOf, isBare]
+
+theorem spineOf_not_bare {e : Expr} (h : isBare e = false) : spineOf e = (e, []) := by
+  cases e with
+  | bin o l r p => cases p <;> simp_all [isBare, spineOf]
+  | _ => simp [spineOf]
+
+/-! ### The printed text of an expression never starts with ')' -/
+
+theorem fmtToksOld_head : (e : Expr) → ∀ rest, startsRp (fmtToksOld e ++ rest) = false
+  | .lit _, _ => by simp [fmtToksOld, startsRp]
+  | .id _, _ => by simp [fmtToksOld, startsRp]
+  | .un .neg _, _ => by simp [fmtToksOld, startsRp]
+  | .un .not _, _ => by simp [fmtToksOld, startsRp]
+  | .call _ _, _ => by simp [fmtToksOld, startsRp]
+  | .bin _ _ _ true, _ => by simp [fmtToksOld, startsRp]
+  | .bin o l r false, rest => by
+    have := fmtToksOld_head l ([Tok.op o] ++ fmtToksOld r ++ rest)
+    simpa [fmtToksOld, List.append_assoc] using this
+
+/-! ### The round trip -/
+
+/-- `e` is read back by `primary` -/
+def ReadsPrimary (e : Expr) : Prop :=
+  ∀ rest, stopsAt 0 rest = true → ∃ N, ∀ f, N ≤ f → primary f (fmtToksOld e ++ rest) = .ok (e, rest)
+
+/-- `e` is read back by `primaryExpr` -/
+def ReadsExpr (e : Expr) : Prop :=
+  ∀ rest, stopsAt 0 rest = true → ∃ N, ∀ f, N ≤ f → primaryExpr f (fmtToksOld e ++ rest) = .ok (e, rest)
+
+/-- `lparameters` reads back an argument list -/
+def ReadsArgs (args : List Expr) : Prop :=
+  ∀ rest, ∃ N, ∀ f, N ≤ f → params f (fmtArgToksOld args ++ .rp :: rest) = .ok (args, .rp :: rest)
+
+theorem stopsAt0_not_lp {rest : List Tok} (h : stopsAt 0 rest = true) : ∀ tl, rest ≠ .lp :: tl := by
+  intro tl heq; subst heq; simp [stopsAt] at h
+
+/-- from "the leftmost operand is read by primary" and "every right operand is read as an operand" to the whole
+tree being read as an operand / as an expression -/
+theorem reads_of_spine (e : Expr) (hc : canon e = true)
+    (hp : ∀ rest, (∀ tl, rest ≠ .lp :: tl) → ∃ N, ∀ f, N ≤ f →
+      primary f (fmtToksOld (spineOf e).1 ++ rest) = .ok ((spineOf e).1, rest))
+    (hs : ∀ x ∈ (spineOf e).2, ReadsOperand x.2 (prec x.1)) :
+    (∀ p, okQ (p + 1) e = true → ReadsOperand e p) ∧ ReadsExpr e := by
+  obtain ⟨_, c2, _, c4⟩ := canon_spineOf e hc
+  constructor
+  · intro p hq rest hr
+    have hnl : ∀ tl, spineToks (spineOf e).2 ++ rest ≠ .lp :: tl := by
+      intro tl
+      cases hS : (spineOf e).2 with
+      | nil =>
+        simp only [spineToks, List.nil_append]
+        intro heq; subst heq; simp [stopsAt] at hr
+      | cons x S => obtain ⟨o, t⟩ := x; simp [spineToks]
+    obtain ⟨N1, h1⟩ := hp _ hnl
+    obtain ⟨N2, h2⟩ := inner_spine _ (spineOf e).2 (Nat.le_refl _) (spineOf e).1 p rest
+      (fun x hx => by have := c4 (p + 1) hq x hx; omega) c2 hs hr
+    refine ⟨max N1 N2, fun f hf => ?_⟩
+    have e1 := h1 f (by omega)
+    have e2 := h2 f (by omega)
+    rw [← toks_spineOf e, List.append_assoc, e1]
+    simp only [Res.bind_ok]
+    rw [e2, fold_spineOf]
+  · intro rest hr
+    have hnl : ∀ tl, spineToks (spineOf e).2 ++ rest ≠ .lp :: tl := by
+      intro tl
+      cases hS : (spineOf e).2 with
+      | nil =>
+        simp only [spineToks, List.nil_append]
+        intro heq; subst heq; simp [stopsAt] at hr
+      | cons x S => obtain ⟨o, t⟩ := x; simp [spineToks]
+    obtain ⟨N1, h1⟩ := hp _ hnl
+    obtain ⟨N2, h2⟩ := outer_spine (spineOf e).2 (spineOf e).1 0 rest (fun _ _ => Nat.zero_le _) c2 hs hr
+    refine ⟨max N1 N2, fun f hf => ?_⟩
+    have e1 := h1 f (by omega)
+    have e2 := h2 f (by omega)
+    rw [← toks_spineOf e, List.append_assoc, primaryExpr, e1]
+    simp only [Res.bind_ok]
+    rw [e2, fold_spineOf]
+
+theorem primaryExpr_bind {β} (f : Nat) (ts : List Tok) (K : Expr × List Tok → Res β) :
+    (primary f ts).bind (fun x => (outer f x.1 0 x.2).bind K) = (primaryExpr f ts).bind K := by
+  rw [primaryExpr, Res.bind_assoc]
+
+theorem reads_args : ∀ (args : List Expr), (∀ a ∈ args, ReadsExpr a) → ReadsArgs args
+  | [], _ => by
+    intro rest
+    refine ⟨1, fun f hf => ?_⟩
+    obtain ⟨f, rfl⟩ : ∃ g, f = g + 1 := ⟨f - 1, by omega⟩
+    simp [fmtArgToksOld, params, startsRp]
+  | [a], h => by
+    intro rest
+    obtain ⟨N, hN⟩ := h a (by simp) (.rp :: rest) (by simp [stopsAt])
+    refine ⟨N + 1, fun f hf => ?_⟩
+    obtain ⟨f, rfl⟩ : ∃ g, f = g + 1 := ⟨f - 1, by omega⟩
+    have e1 := hN f (by omega)
+    simp only [fmtArgToksOld, params, fmtToksOld_head, Bool.false_eq_true, if_false]
+    rw [primaryExpr_bind, e1]
+    simp
+  | a :: b :: tl, h => by
+    intro rest
+    obtain ⟨N1, h1⟩ := h a (by simp) (.comma :: (fmtArgToksOld (b :: tl) ++ .rp :: rest)) (by simp [stopsAt])
+    obtain ⟨N2, h2⟩ := reads_args (b :: tl) (fun x hx => h x (by simp [hx])) rest
+    refine ⟨max N1 N2 + 1, fun f hf => ?_⟩
+    obtain ⟨f, rfl⟩ : ∃ g, f = g + 1 := ⟨f - 1, by omega⟩
+    have e1 := h1 f (by omega)
+    have e2 := h2 f (by omega)
+    simp only [fmtArgToksOld, List.append_assoc, List.cons_append, params, fmtToksOld_head,
+      Bool.false_eq_true, if_false]
+    rw [primaryExpr_bind, e1]
+    simp [e2]
+
+theorem size_pos : (e : Expr) → 0 < size e
+  | .lit _ => by simp [size]
+  | .id _ => by simp [size]
+  | .un _ _ => by simp [size]
+  | .bin _ _ _ _ => by simp [size]
+  | .call _ _ => by simp [size]
+
+theorem canonAll_mem : ∀ (args : List Expr), canonAll args = true → ∀ a ∈ args, canon a = true
+  | [], _, a, ha => by simp at ha
+  | x :: xs, h, a, ha => by
+    simp only [canonAll, Bool.and_eq_true] at h
+    simp at ha
+    rcases ha with rfl | ha
+    · exact h.1
+    · exact canonAll_mem xs h.2 a ha
+
+theorem sizeAll_mem : ∀ (args : List Expr), ∀ a ∈ args, size a < sizeAll args + 1
+  | [], a, ha => by simp at ha
+  | x :: xs, a, ha => by
+    simp at ha
+    rcases ha with rfl | ha
+    · simp [sizeAll]; omega
+    · have := sizeAll_mem xs a ha; simp [sizeAll]; omega
+
+/-- The round trip, for every canonical tree: `primary` reads a non-bare tree, the operand reader and
+`primaryExpr` read any tree – whatever follows, as long as it cannot continue the expression. -/
+theorem roundtrip_all : ∀ (n : Nat) (e : Expr), size e ≤ n → canon e = true →
+    (isBare e = false → ∀ rest, (∀ tl, rest ≠ .lp :: tl) → ∃ N, ∀ f, N ≤ f →
+        primary f (fmtToksOld e ++ rest) = .ok (e, rest)) ∧
+    (∀ p, okQ (p + 1) e = true → ReadsOperand e p) ∧ ReadsExpr e
+  | 0, e, hs, _ => by have := size_pos e; omega
+  | n + 1, e, hsz, hc => by
+    -- the two readers for any strictly smaller or spine-decomposed tree
+    have spineReads : ∀ e' : Expr, canon e' = true → isBare e' = true → size e' ≤ n + 1 →
+        (∀ p, okQ (p + 1) e' = true → ReadsOperand e' p) ∧ ReadsExpr e' := by
+      intro e' hc' hb' hs'
+      obtain ⟨c1, _, c3, _⟩ := canon_spineOf e' hc'
+      obtain ⟨_, z2, z3⟩ := size_spineOf e'
+      refine reads_of_spine e' hc' ?_ ?_
+      · exact (roundtrip_all n (spineOf e').1 (by have := z3 hb'; omega) c1).1 (spineOf_head_not_bare e')
+      · intro x hx
+        have := z2 x hx
+        exact (roundtrip_all n x.2 (by omega) (c3 x hx).1).2.1 _ (c3 x hx).2
+    have hprim : isBare e = false → ∀ rest, (∀ tl, rest ≠ .lp :: tl) → ∃ N, ∀ f, N ≤ f →
+        primary f (fmtToksOld e ++ rest) = .ok (e, rest) := by
+      intro hb rest hnl
+      match e, hsz, hc, hb with
+      | .lit a, _, _, _ =>
+        refine ⟨1, fun f hf => ?_⟩
+        obtain ⟨f, rfl⟩ : ∃ g, f = g + 1 := ⟨f - 1, by omega⟩
+        simp [fmtToksOld, primary]
+      | .id s, _, _, _ =>
+        refine ⟨1, fun f hf => ?_⟩
+        obtain ⟨f, rfl⟩ : ∃ g, f = g + 1 := ⟨f - 1, by omega⟩
+        cases rest with
+        | nil => simp [fmtToksOld, primary]
+        | cons t ts =>
+          cases t <;> first | (exact absurd rfl (hnl ts)) | simp [fmtToksOld, primary]
+      | .un op e', hsz, hc, _ =>
+        simp only [canon, Bool.and_eq_true, Bool.not_eq_true'] at hc
+        have hs' : size e' ≤ n := by simp [size] at hsz; omega
+        obtain ⟨N, hN⟩ := (roundtrip_all n e' hs' hc.1).1 hc.2 rest hnl
+        refine ⟨N + 1, fun f hf => ?_⟩
+        obtain ⟨f, rfl⟩ : ∃ g, f = g + 1 := ⟨f - 1, by omega⟩
+        have e1 := hN f (by omega)
+        cases op <;> simp [fmtToksOld, primary, e1]
+      | .bin o l r true, hsz, hc, _ =>
+        have hc0 : canon (.bin o l r false) = true := by simpa [canon] using hc
+        have hs0 : size (.bin o l r false) ≤ n + 1 := by simpa [size] using hsz
+        obtain ⟨N, hN⟩ := (spineReads (.bin o l r false) hc0 rfl hs0).2 (.rp :: rest) (by simp [stopsAt])
+        refine ⟨N + 1, fun f hf => ?_⟩
+        obtain ⟨f, rfl⟩ : ∃ g, f = g + 1 := ⟨f - 1, by omega⟩
+        have e1 := hN f (by omega)
+        have ht : fmtToksOld (.bin o l r true) ++ rest = .lp :: (fmtToksOld (.bin o l r false) ++ .rp :: rest) := by
+          simp [fmtToksOld, List.append_assoc]
+        rw [ht]
+        simp only [primary]
+        rw [primaryExpr_bind, e1]
+        simp [expectRp, setParens]
+      | .call s args, hsz, hc, _ =>
+        have hca : canonAll args = true := by simpa [canon] using hc
+        have hra : ReadsArgs args := reads_args args (fun a ha => by
+          have h1 := sizeAll_mem args a ha
+          have : size a ≤ n := by simp [size] at hsz; omega
+          exact (roundtrip_all n a this (canonAll_mem args hca a ha)).2.2)
+        obtain ⟨N, hN⟩ := hra rest
+        refine ⟨N + 1, fun f hf => ?_⟩
+        obtain ⟨f, rfl⟩ : ∃ g, f = g + 1 := ⟨f - 1, by omega⟩
+        have e1 := hN f (by omega)
+        have ht : fmtToksOld (.call s args) ++ rest = .id s :: .lp :: (fmtArgToksOld args ++ .rp :: rest) := by
+          simp [fmtToksOld, List.append_assoc]
+        rw [ht]
+        simp only [primary, e1]
+        simp [expectRp]
+    refine ⟨hprim, ?_⟩
+    cases hb : isBare e with
+    | true => exact spineReads e hc hb hsz
+    | false =>
+      have hsp := spineOf_not_bare hb
+      refine reads_of_spine e hc ?_ ?_
+      · rw [hsp]; exact hprim hb
+      · rw [hsp]; intro x hx; simp at hx
+
 end Kap.C13
